@@ -50,6 +50,8 @@ def run_case(ri):
         alt[mask] += 0.37
     elif r['others'] == 'scaled':
         alt[mask] *= 1.5
+    elif r['others'] == 'huge':
+        alt[mask] = 1e16                        # x + h == x for every generated step there
     else:
         alt[mask] = -0.45                       # sqrt(x + 0.5) is NaN there for steps above 0.05
     probs = []
@@ -95,6 +97,23 @@ def run_case(ri):
             probs.append('args: second call with other extra arguments on the same object gives %r, a fresh object %r' % (np.ravel(a2[0])[:3].tolist(), np.ravel(b2[0])[:3].tolist()))
     except Exception as ex:
         probs.append('raises: %s' % ex)
+    if r['m'] in ('central', 'forward', 'backward') and r['n'] <= 2:
+        # re-entrant use: f calls the SAME object again with other extra arguments; the outer call's arguments must still
+        # reach f on every later evaluation (compared with two unrelated objects doing the same computation)
+        def g2(z, s=1.0, t=0.0, inner=None):
+            out = fun(z) * s + t
+            return out + 0.125 * inner(z, -0.5)[0] if inner is not None else out
+        try:
+            with np.errstate(all='ignore'):
+                mk = lambda: nd.Derivative(g2, n=r['n'], method=r['m'], order=r['o'], full_output=True)
+                xx = np.array(vals).reshape(shape)
+                same_obj = mk()
+                c1 = same_obj(xx, 2.0, t=1.0, inner=same_obj)
+                c2 = mk()(xx, 2.0, t=1.0, inner=mk())
+            if not (same(c1[0], c2[0]) and same(c1[1].error_estimate, c2[1].error_estimate)):
+                probs.append('args: a function that calls the same object again with other extra arguments gives %r, with two separate objects %r' % (np.ravel(c1[0])[:3].tolist(), np.ravel(c2[0])[:3].tolist()))
+        except Exception as ex:
+            probs.append('raises: re-entrant call: %s' % ex)
     idx = np.ravel(i1.index)
     if idx.size != size or int(idx[col]) % size != col:
         probs.append('index: info.index[%d] = %r is not in column %d of the estimate table' % (col, idx[col] if idx.size > col else None, col))
